@@ -233,8 +233,20 @@ func (in *Interp) afterExit(t *Thread) {
 		return
 	}
 	next := in.pickNext(nil, "exit")
+	if next == nil && !in.par {
+		// sequential mode: goroutines started so far are parked; the waiting thread may be waiting for several of them
+		// (a WaitGroup over the chunks of a parallel copy): release the next one, in spawn order (a legal schedule)
+		for _, p := range in.threads {
+			if p.parked && !p.done && !p.daemon {
+				p.parked = false
+				next = p
+				break
+			}
+		}
+	}
 	if next == nil {
 		// nobody can run: if main waits for us it is enabled (handled by pickNext); otherwise deadlock
+		in.run.noteDeadlock(in, "thread exit leaves every thread blocked")
 		in.run.setAbort(abortRun{kind: "deadlock", msg: in.describeBlocked()})
 		in.killAll(t)
 		return
